@@ -216,6 +216,13 @@ pub fn length_set(true_len: u32, cap: u32) -> Vec<u32> {
         v.push(true_len.saturating_add(d));
     }
     v.extend_from_slice(&[1023, 1024, 1025, 1032, 1033, 2056, 0xFFFF, 0x1_0000, 0x1_0001, 0x1_0004, 0x00FF_FFFF, 0x0100_0000, 0x0100_0004]);
+    // the true length with one higher bit set: equal to the truth for any reader that narrows the
+    // length, or a count derived from it, to fewer bits
+    for k in 2..32u32 {
+        if let Some(x) = true_len.checked_add(1 << k) {
+            v.push(x);
+        }
+    }
     v.retain(|x| *x <= cap);
     v.sort();
     v.dedup();
